@@ -12,7 +12,9 @@ RULE = ("random types x random key sequences of depth 1-5 (field names, indices,
         "paths end in a key adjacent to the valid range: index = length/limit, -1, unknown field, selector = count) x "
         "a random value; observables: accepted/rejected at build + static gindex, type reached, root of "
         "backing.getter(gindex) — against the implementation model and against Spec.spec_step; model-free: "
-        "gindex(view) and navigate_view agree with the static index whenever they return; "
+        "gindex(view) and navigate_view agree with the static index whenever they return; the same path built key by "
+        "key and by concatenating sub-paths at every split point (prefix object kept and used twice) has the same index = "
+        "concat_gindices of the parts, operands unchanged; "
         "non-trivial = path of length >= 2 or an invalid key")
 
 
@@ -145,6 +147,9 @@ def build(inp):
              kind="rejected" if isinstance(p, E) else "len%d" % len(keys))
     c.why = None
     if not isinstance(p, E) and not isinstance(obs[0], E):
+        alg = attempt(lambda: path_algebra(C, keys, obs[0]), anyerr=True)
+        if alg is not None:
+            c.why = "path algebra: %s" % (alg,)
         if dyn is not None and not isinstance(dyn, E) and dyn != obs[0]:
             c.why = "gindex(view) = %d differs from the static gindex %d" % (dyn, obs[0])
         if nav is not None and not isinstance(nav, E) and not isinstance(obs[2], E):
@@ -161,6 +166,38 @@ def build(inp):
             except Exception:
                 pass
     return c
+
+
+def path_algebra(C, keys, g):
+    """model-free: the same path built key by key and by concatenating sub-paths (a kept prefix used more than once)
+    has the same index, concatenation = concat_gindices, and building a longer path leaves its operands unchanged"""
+    from remerkleable.tree import concat_gindices
+    q = Path(C)
+    for k in keys:
+        q = q / k
+    if int(q.gindex()) != g:
+        return "path built key by key has gindex %d, from_raw_path gives %d" % (int(q.gindex()), g)
+    q2 = C
+    for k in keys:
+        q2 = q2 / k
+    if int(q2.gindex()) != g:
+        return "Type / key / ... has gindex %d, from_raw_path gives %d" % (int(q2.gindex()), g)
+    for i in range(1, len(keys)):
+        pre = Path.from_raw_path(C, keys[:i])
+        g_pre, t_pre = int(pre.gindex()), pre.navigate_type()
+        suf = Path.from_raw_path(t_pre, keys[i:])
+        g_suf = int(suf.gindex())
+        for attempt_no in (1, 2):
+            r = pre / suf
+            if int(r.gindex()) != g or int(concat_gindices([g_pre, g_suf])) != g:
+                return ("concatenation #%d of the paths %r / %r has gindex %d, concat_gindices gives %d, the whole path %d"
+                        % (attempt_no, keys[:i], keys[i:], int(r.gindex()), int(concat_gindices([g_pre, g_suf])), g))
+            if int(pre.gindex()) != g_pre or pre.navigate_type() is not t_pre or int(suf.gindex()) != g_suf:
+                return "concatenating %r / %r changed one of the operands" % (keys[:i], keys[i:])
+        step = pre / keys[i]
+        if int(pre.gindex()) != g_pre or len(step.path) != i + 1:
+            return "extending the path %r by a key changed it" % (keys[:i],)
+    return None
 
 
 def direct_violation(c):
